@@ -4,4 +4,4 @@ From Coq Require Extraction.
 From Coq Require Import NArith.
 From Muscle Require Import Gen.Consts Cont.QueueModel.
 Definition small_queue_size : nat := N.to_nat c_QUEUE_INLINE_SLOTS_INT32.
-Extraction "queue_model.ml" step0 step1 step20 step2 empty_q abs qsize small_queue_size.
+Extraction "queue_model.ml" step0 step1 step20 step2 empty_q abs qsize release small_queue_size.
